@@ -112,6 +112,42 @@ def resume_cfg(cfg):
     return r.dump()
 
 
+def early_crash_cfg(cfg):
+    """A run checkpointing into a file dies before its first checkpoint; the user calls sample(resume_from=file) again.
+    Either that is refused (nothing to resume) or the run it performs keeps a faithful record."""
+    import os
+    import shutil
+    import tempfile
+
+    r = Report()
+    tmp = tempfile.mkdtemp(prefix="c18e_")
+    try:
+        for k in (1, 3, 5, 8):
+            path = os.path.join(tmp, f"early{k}.h5")
+            F = rh.run(cfg, fault_at=k, file_path=path)
+            case = {"early_crash": True, "cfg": cfg, "fault_at": k}
+            r.case(explorer.digest(case), nontrivial=True)
+            if F.exception is None or F.exception[0] != "InjectedFault":
+                continue
+            import h5py
+
+            has_ck = os.path.exists(path) and "checkpoint" in h5py.File(path, "r")
+            if has_ck:
+                continue  # not an early crash for this cadence
+            for variant, exists in (("file-without-checkpoint", os.path.exists(path)), ("no-file", False)):
+                p2 = path if exists else os.path.join(tmp, f"absent{k}.h5")
+                rr = rh.run(cfg, resume_from=p2, file_path=p2)
+                if rr.exception is not None:
+                    r.count("observation:resume-from-a-file-without-checkpoint-is-refused")
+                    continue
+                for sig, detail in check_history(to_rec(rr)) + extra_series(rr, cfg["sampler"]):
+                    r.violation(sig + "/after-resume-from-a-file-without-checkpoint", detail, dict(case, variant=variant))
+    finally:
+        shutil.rmtree(tmp, ignore_errors=True)
+    r.sample({"early_crash": True, "cfg": cfg})
+    return r.dump()
+
+
 def run(tier, seed, workers):
     from checks import c06, c11
 
@@ -134,10 +170,22 @@ def run(tier, seed, workers):
     for d in pmap("checks.c18", "resume_cfg", rcfgs, workers, chunksize=2):
         rep.merge(d)
     rep.count("resume_configs", len(rcfgs))
+    ecfgs = [{"sampler": sampler, "N": 8, "opts": {"adaptive": True, "target_efficiency": 0.8}, "cadence": 3, "n_final": None, "precond": "none", "seed": 0}
+             for sampler in ("smc", "emcee_smc")]
+    for d in pmap("checks.c18", "early_crash_cfg", ecfgs, workers):
+        rep.merge(d)
     return rep
 
 
+def _replay_early(case):
+    r = Report()
+    r.merge(early_crash_cfg(case["cfg"]))
+    return r
+
+
 def replay(case):
+    if case.get("early_crash"):
+        return _replay_early(case)
     from checks.c06 import _fix
 
     r = Report()
